@@ -178,7 +178,8 @@ def run(res, tier, rng):
         pool = rng.choice(rules).replace("*", "w").replace("!", "").rstrip(".").split(".")
         cand.append([rng.choice(["a", "www", "zz"] + pool) for _ in range(rng.randint(1, 3))] + pool[-rng.randint(1, len(pool)):])
     # corpus
-    cand = [["svc", "firenet", "ch"], ["kawasaki", "jp"], ["city", "kawasaki", "jp"], ["ck"], ["www", "ck"], ["a", "www", "ck"]] + cand
+    cand = [["localhostcert", "net"], ["localhost", "daplie", "me"], ["x", "localhost", "daplie", "me"], ["127", "0", "0", "1", "nip", "io"], ["10", "0", "0", "1x", "com"],
+            ["svc", "firenet", "ch"], ["kawasaki", "jp"], ["city", "kawasaki", "jp"], ["ck"], ["www", "ck"], ["a", "www", "ck"]] + cand
     forms = [lambda h: h, lambda h: h.upper(), lambda h: h + ".", lambda h: "http://" + h + "/a?b#c",
              lambda h: "https://user:pw@" + h + ":8080/", lambda h: "//" + h]
     urls = []
